@@ -50,6 +50,12 @@ def classify(L, o, cells):
 def outcome_sig(L, o):
     if o.kind != "return":
         return ("panic", (o.msg or "")[:60])
+    v = o.value
+    if isinstance(v, Enum) and v.variant == "Err" and v.payload is not None and isinstance(v.payload.fields.get(0), Enum) and v.payload.fields[0].variant is None:
+        e = v.payload.fields[0]
+        return ("Err", "symbolic:" + str(e.origin))          # an arbitrary error value (stubbed callee): identified by its name
+    if isinstance(v, Enum) and v.variant == "Err" and (v.payload is None or 0 not in v.payload.fields):
+        return ("Err", "symbolic:" + str(v.origin))
     k = L.result_kind(o)
     return ("Ok",) if k[0] == "Ok" else ("Err", k[1])
 
@@ -174,6 +180,7 @@ def with_tags_lemma():
 def run(L, tier, only=None):
     L.ex.path_budget = 5000
     quick = tier == "quick"
+    run_structural(L, only)
     for loader, word, arity in WORDS:
         if only and word not in only:
             continue
@@ -182,6 +189,14 @@ def run(L, tier, only=None):
             if quick and not only and (word, pos) not in QUICK:
                 continue
             L.lemma("C13 %s arg%d" % (word, pos), relational_lemma(loader, word, arity, pos))
+    L.ex.path_budget = None
+
+
+def run_structural(L, only):
     if not only or "with-tags" in only:
         L.lemma("C13 with_tags", with_tags_lemma())
-    L.ex.path_budget = None
+    if not only or "order" in only:
+        # the order used by sort and by map keys sees through tags (shared with C12)
+        from e2.lemmas import c12
+        for side in (0, 1):
+            L.lemma("C13 order and equality see through tags (operand %d)" % side, c12.ord_tag_lemma(side))
